@@ -365,22 +365,29 @@ fn more_family<
             move || h_more::wrap_claim::<S>(fill),
         ));
         if mode == Fresh {
-            let mut x = inst(
-                format!("churn_help:{}", path),
-                &["C11", "C03"],
-                mode,
-                4,
-                "T{load, exit} || W{store} || S{first use of the crate inside the race: store, load, load}, 3 preemptions",
-                move || h_more::churn_help::<S>(fill),
-            );
-            x.k = 0;
-            x.p_with_k = Some(3);
-            // quick tier: only on the fallback-only path (the cheapest of the three, and the one
-            // in which every load is a helping transaction)
-            x.thorough_only = path != "nofast";
-            // `check_cooldown` must not act on a stale count of writers (seeded C11-2)
-            x.m3l_stale = Some(1);
-            out.push(x);
+            for two in [false, true] {
+                if two && path != "nofast" {
+                    continue;
+                }
+                let mut x = inst(
+                    format!("churn_help{}:{}", if two { "2" } else { "" }, path),
+                    if two { &["C12", "C11"] } else { &["C11", "C03"] },
+                    mode,
+                    4,
+                    "T{load, exit} || W{store} || S{first use of the crate inside the race: store, load, load} (churn_help2: S on a container of its own), 3 preemptions",
+                    move || h_more::churn_help::<S>(fill, two),
+                );
+                x.k = 0;
+                x.p_with_k = Some(3);
+                // quick tier: only on the fallback-only path (the cheapest of the three, and the one
+                // in which every load is a helping transaction)
+                x.thorough_only = path != "nofast";
+                // `check_cooldown` must not act on a stale count of writers (seeded C11-2)
+                if !two {
+                    x.m3l_stale = Some(1);
+                }
+                out.push(x);
+            }
         }
         if mode == Fresh {
             out.push(inst(
